@@ -216,7 +216,8 @@ def rule_score(ctx):
     ok = norm(body[0]) == 'if self._finished: return'
     ctx.ob('C07.score', f'{f.fq}:idempotent', ok, 'finishing twice does nothing', f.node, f.module)
     src = full(f.node)
-    ok = 'if _libsc3.main.current_tt is _libsc3.main.main_tt: tailtime += max(_libsc3.main.current_tt._seconds, self._scoreq.peek(False)[0])' in src
+    ok = U.before(src, 'if _libsc3.main.current_tt is _libsc3.main.main_tt:', 'last = _libsc3.main.current_tt._seconds',
+                  'if not self._scoreq.empty(): last = max(last, self._scoreq.peek(False)[0])', 'tailtime += last', 'self.add([tailtime,')
     ctx.ob('C07.score', f'{f.fq}:tail-time', ok,
            'the tail is counted from the later of the final logical time and the latest queued bundle: a bundle sent with latency lies '
            'after the last wake-up, and the marker must still be the last entry', f.node, f.module)
@@ -298,7 +299,7 @@ MUTANTS = [
          edits=[('sc3/base/_oscinterface.py', "        bndl = bndl[:]  # Don't change the list of the caller.\n", ""),
                 ('sc3/base/_oscinterface.py', "                    f'OSC messages or bundles: {element}')\n        bndl[0] = self._get_logical_time", "                    f'OSC messages or bundles: {element}')\n        bndl = bndl[:]\n        bndl[0] = self._get_logical_time")]),
     dict(rule='C07.score', name='(fix reverted) tail marker counted from the last wake-up only', file='sc3/base/_oscinterface.py',
-         old="            tailtime += max(\n                _libsc3.main.current_tt._seconds,\n                self._scoreq.peek(False)[0])", new="            tailtime += _libsc3.main.current_tt._seconds"),
+         old="            if not self._scoreq.empty():\n                last = max(last, self._scoreq.peek(False)[0])\n", new=""),
     dict(rule='C07.tag', name='NRT negative latency clamped after adding the send instant (seed C07-c)', file='sc3/base/_oscinterface.py',
          old="        # Changes in this method must be synced with it, or refactored.\n        if time is None or time < 0.0:\n            time = 0.0\n        if _libsc3.main.current_tt is not _libsc3.main.main_tt:\n            time += send_time\n        return time",
          new="        if time is None:\n            time = 0.0\n        if _libsc3.main.current_tt is not _libsc3.main.main_tt:\n            time += send_time\n        return max(time, 0.0)"),
